@@ -409,7 +409,7 @@ func C11(c *Ctx) {
 	p.W[gast.StateCode] = 5
 	p.PDisplay = 40
 	p.ActSpec = func(r *rand.Rand) mon.Spec {
-		return mon.Spec{R: pick(r, 0, 0, 1, 3), E: pick(r, 0, 0, 1, 2, 2, 3, 4), P: pick(r, 0, 0, 0, 0, 0, 0, 1, 2, 3)}
+		return mon.Spec{R: pick(r, 0, 0, 1, 3), E: pick(r, 0, 0, 1, 2, 2, 3, 4, 5), P: pick(r, 0, 0, 0, 0, 0, 0, 1, 2, 3)}
 	}
 	p.PredSpec = func(r *rand.Rand) mon.Spec {
 		return mon.Spec{B: pick(r, 0, 0, 1, 4), E: pick(r, 0, 0, 1, 2, 3), P: pick(r, 0, 0, 0, 0, 0, 0, 0, 1, 2)}
@@ -590,6 +590,10 @@ func c12Strata() []*gast.Grammar {
 		mk(r("S", gast.S(gast.Star(gast.C(gast.L("ab"), gast.S(gast.L("a"), gast.NotE(gast.L("b"))))), gast.NotE(gast.Dot())))),
 		mk(r("S", gast.S(gast.L("a"), gast.NotE(gast.NotE(gast.Cl(gast.Chars("xy")))), gast.AndE(gast.NotE(gast.L("xz"))), gast.Dot(), gast.NotE(gast.Dot())))),
 		mk(r("S", gast.S(gast.Opt(gast.L("\n")), gast.C(gast.L("a"), gast.Li("B"), gast.Cl(&gast.ClassSpec{Chars: []rune("a"), Inverted: true})), gast.L("c")))),
+		// the end-of-input test nested in a negative predicate (EOL <- "\n" / !.), evaluated where the input ends
+		mk(r("S", gast.S(gast.L("\""), gast.Star(gast.S(gast.NotE(gast.C(gast.L("\""), gast.Ref("EOL"))), gast.Dot())), gast.L("\""))), r("EOL", gast.C(gast.L("\n"), gast.NotE(gast.Dot())))),
+		mk(r("S", gast.Star(gast.Ref("Line"))), r("Line", gast.S(gast.Plus(gast.Cl(gast.Chars("ab"))), gast.L("="), gast.Plus(gast.S(gast.NotE(gast.Ref("EOL")), gast.Cl(gast.Chars("01")))), gast.Ref("EOL"))),
+			r("EOL", gast.C(gast.L("\n"), gast.S(gast.L(";"), gast.NotE(gast.NotE(gast.NotE(gast.Dot())))), gast.NotE(gast.Dot())))),
 	}
 }
 
@@ -678,10 +682,8 @@ func c14Strata() []*gast.Grammar {
 		// a recovery expression that throws a second label: it fails where no operator for that label
 		// is in force, and must be tried again when the same throw is reached at the same offset
 		// inside an operator that lists it
-		mk(r("S", gast.C(gast.Ref("A1"), gast.Ref("A2"), gast.Star(gast.Dot()))),
-			r("A1", gast.Rec(gast.S(gast.Ref("T"), gast.L("!")), gast.Ref("R"), "L1")),
-			r("A2", gast.Rec(gast.Rec(gast.S(gast.Ref("T"), gast.L("?")), gast.Ref("R"), "L1"), act(gast.Dot(), 1), "L2")),
-			r("T", act(gast.S(gast.L("<"), gast.Lab("v", gast.C(gast.Cl(gast.Chars("ab")), gast.Thr("L1")))), 2)),
+		mk(r("S", gast.C(gast.S(gast.Ref("A"), gast.L("!")), gast.S(gast.Rec(gast.Ref("A"), act(gast.Dot(), 1), "L2"), gast.L("?")), gast.Star(gast.Dot()))),
+			r("A", gast.Rec(act(gast.S(gast.L("<"), gast.Lab("v", gast.C(gast.Cl(gast.Chars("ab")), gast.Thr("L1")))), 2), gast.Ref("R"), "L1")),
 			r("R", gast.C(act(gast.L("~"), 3), gast.Thr("L2")))),
 		// throw inside repetition and predicate
 		mk(r("S", gast.Rec(gast.S(gast.Star(gast.C(gast.L("a"), gast.S(gast.AndE(gast.L("b")), gast.Thr("L2")))), gast.NotE(gast.Thr("L1")), gast.Star(gast.Dot())), act(gast.L("b"), 1), "L1", "L2"))),
